@@ -760,7 +760,7 @@ class SampleObj(dict):
 
 
 def mini_exec(fn: ast.FunctionDef, args: Dict[str, object], budget: int = 2000, methods: Optional[Dict[str, ast.FunctionDef]] = None, _depth: int = 0,
-              functions: Optional[Dict[str, ast.FunctionDef]] = None):
+              functions: Optional[Dict[str, ast.FunctionDef]] = None, ctors: Optional[Set[str]] = None):
     """Runs a small, side-effect-free function of the analysed program on *sample* arguments with the analyser's own
     interpreter (assignments to names, if / for / while-free loops over lists and ranges, return, and the expression forms
     of _PathEval plus range / min / max / zip / enumerate / all / any).  Anything else raises _PathEval.Unknown."""
@@ -800,7 +800,7 @@ def mini_exec(fn: ast.FunctionDef, args: Dict[str, object], budget: int = 2000, 
                 for k in e.keywords:
                     if k.arg:
                         call_args[k.arg] = ev(k.value)
-                return mini_exec(m, call_args, budget, methods, _depth + 1, functions)
+                return mini_exec(m, call_args, budget, methods, _depth + 1, functions, ctors)
         if isinstance(e, ast.Call) and isinstance(e.func, ast.Name) and functions and e.func.id in functions and _depth < 12:
             # a function of the program called by name (a nested helper sees the variables of the function around it)
             g_ = functions[e.func.id]
@@ -819,11 +819,53 @@ def mini_exec(fn: ast.FunctionDef, args: Dict[str, object], budget: int = 2000, 
             steps[0] += 5
             if steps[0] > budget:
                 raise _PathEval.Unknown("too many steps")
-            return mini_exec(g_, call_env, budget, methods, _depth + 1, functions)
+            return mini_exec(g_, call_env, budget, methods, _depth + 1, functions, ctors)
+        if isinstance(e, ast.Call) and ctors and (e.func.attr if isinstance(e.func, ast.Attribute) else getattr(e.func, "id", None)) in ctors:
+            # building a node of the program: recorded, not executed
+            leaf = e.func.attr if isinstance(e.func, ast.Attribute) else e.func.id
+            return SampleObj(__kind__=leaf, __built__=True, args=[ev(a_) for a_ in e.args], kwargs={k.arg: ev(k.value) for k in e.keywords if k.arg})
+        if isinstance(e, ast.Call) and isinstance(e.func, ast.Name) and e.func.id in env and isinstance(env[e.func.id], ClassTok) and ctors \
+                and env[e.func.id].name in ctors:
+            return SampleObj(__kind__=env[e.func.id].name, __built__=True, args=[ev(a_) for a_ in e.args], kwargs={k.arg: ev(k.value) for k in e.keywords if k.arg})
+        if isinstance(e, ast.Call) and unparse(e.func) in ("itertools.product", "product"):
+            import itertools as _it
+            vals_ = []
+            for a_ in e.args:
+                if isinstance(a_, ast.Starred):
+                    vals_.extend(ev(a_.value))
+                else:
+                    vals_.append(ev(a_))
+            if e.keywords:
+                raise _PathEval.Unknown("itertools.product with keywords")
+            try:
+                return [tuple(x) for x in _it.product(*vals_)]
+            except TypeError:
+                raise _PathEval.Unknown("itertools.product of these samples")
+        if isinstance(e, ast.Call) and isinstance(e.func, ast.Name) and e.func.id == "id" and len(e.args) == 1:
+            return id(ev(e.args[0]))
+        if isinstance(e, ast.Call) and isinstance(e.func, ast.Name) and e.func.id in ("getattr", "hasattr") and len(e.args) >= 2:
+            obj_, nm_ = ev(e.args[0]), ev(e.args[1])
+            if not isinstance(obj_, SampleObj) or not isinstance(nm_, str):
+                raise _PathEval.Unknown(f"{e.func.id} on something that is not a sample object")
+            if e.func.id == "hasattr":
+                return nm_ in obj_
+            if nm_ in obj_:
+                return obj_[nm_]
+            if len(e.args) == 3:
+                return ev(e.args[2])
+            raise _Raised("AttributeError")
         if isinstance(e, ast.Call) and isinstance(e.func, ast.Name) and e.func.id == "isinstance" and len(e.args) == 2:
             obj = ev(e.args[0])
             ks = e.args[1].elts if isinstance(e.args[1], ast.Tuple) else [e.args[1]]
             names = set()
+            if len(ks) == 1 and not isinstance(ks[0], (ast.Name, ast.Attribute)):
+                try:
+                    v0_ = ev(ks[0])
+                    ks = []
+                    for c_ in (v0_ if isinstance(v0_, (list, tuple)) else [v0_]):
+                        names.add(c_.name if isinstance(c_, ClassTok) else None)
+                except _PathEval.Unknown:
+                    pass
             for k in ks:
                 if isinstance(k, ast.Name) and k.id in env:
                     v_ = env[k.id]                      # a class held in a variable (`for t, dest in table: isinstance(m, t)`)
@@ -879,7 +921,7 @@ def mini_exec(fn: ast.FunctionDef, args: Dict[str, object], budget: int = 2000, 
             return {ev(k): ev(v) for k, v in zip(e.keys, e.values)}
         if isinstance(e, ast.Set):
             return {ev(x) for x in e.elts}
-        if isinstance(e, (ast.GeneratorExp, ast.ListComp, ast.SetComp, ast.DictComp)) and len(e.generators) > 1 or isinstance(e, (ast.SetComp, ast.DictComp)):
+        if isinstance(e, (ast.ListComp, ast.SetComp, ast.DictComp)) and len(e.generators) > 1 or isinstance(e, (ast.SetComp, ast.DictComp)):
             out = []
             saved = dict(env)
 
@@ -913,6 +955,52 @@ def mini_exec(fn: ast.FunctionDef, args: Dict[str, object], budget: int = 2000, 
             except TypeError:
                 raise _PathEval.Unknown(f"{e.func.id}() of these samples")
             return list(r) if e.func.id in ("range", "zip", "enumerate", "reversed") else r
+        if isinstance(e, ast.GeneratorExp):
+            # a generator expression is lazy: its first iterable is evaluated now, everything else when the consumer asks for the next
+            # item - with the values the enclosing variables have *then* (its own loop variables are private to it)
+            gens = e.generators
+            first = ev(gens[0].iter)
+            loc: Dict[str, object] = {}
+            _missing = object()
+
+            def with_loc(f_):
+                saved_ = {k: env.get(k, _missing) for k in loc}
+                env.update(loc)
+                try:
+                    return f_()
+                finally:
+                    for k, v_ in saved_.items():
+                        if v_ is _missing:
+                            env.pop(k, None)
+                        else:
+                            env[k] = v_
+
+            def bind_private(t, item):
+                names_ = [x.id for x in ast.walk(t) if isinstance(x, ast.Name)]
+                saved_ = {k: env.get(k, _missing) for k in names_}
+                bind(t, item)
+                for k in names_:
+                    loc[k] = env[k]
+                for k, v_ in saved_.items():
+                    if v_ is _missing:
+                        env.pop(k, None)
+                    else:
+                        env[k] = v_
+
+            def rec(k):
+                if k == len(gens):
+                    yield with_loc(lambda: ev(e.elt))
+                    return
+                g_ = gens[k]
+                it_ = first if k == 0 else with_loc(lambda: ev(g_.iter))
+                for item in it_:
+                    steps[0] += 1
+                    if steps[0] > budget:
+                        raise _PathEval.Unknown("too many steps")
+                    bind_private(g_.target, item)
+                    if with_loc(lambda: all(ev(c) for c in g_.ifs)):
+                        yield from rec(k + 1)
+            return rec(0)
         if isinstance(e, (ast.GeneratorExp, ast.ListComp)) and len(e.generators) == 1:
             g = e.generators[0]
             out = []
@@ -927,6 +1015,8 @@ def mini_exec(fn: ast.FunctionDef, args: Dict[str, object], budget: int = 2000, 
         if isinstance(e, ast.Name):
             if e.id in env:
                 return env[e.id]
+            if ctors and e.id in ctors:
+                return ClassTok(e.id)
             if e.id in ("True", "False", "None"):
                 return {"True": True, "False": False, "None": None}[e.id]
             raise _PathEval.Unknown(f"name {e.id}")
@@ -969,7 +1059,18 @@ def mini_exec(fn: ast.FunctionDef, args: Dict[str, object], budget: int = 2000, 
             except TypeError:
                 raise _PathEval.Unknown("arithmetic on these samples")
         if isinstance(e, (ast.List, ast.Tuple)):
-            return [ev(x) for x in e.elts]
+            out_l = []
+            for x in e.elts:
+                if isinstance(x, ast.Starred):
+                    out_l.extend(ev(x.value))
+                else:
+                    out_l.append(ev(x))
+            return out_l
+        if isinstance(e, ast.Attribute) and isinstance(e.value, ast.Name) and e.value.id not in env and e.attr[:1].isupper():
+            return ClassTok(e.attr)                  # `parser.Class` where classes are handled as values
+        if isinstance(e, ast.Call) and isinstance(e.func, ast.Name) and e.func.id in env and isinstance(env[e.func.id], ClassTok) and ctors \
+                and env[e.func.id].name in ctors:
+            return SampleObj(__kind__=env[e.func.id].name, __built__=True, args=[ev(a_) for a_ in e.args], kwargs={k.arg: ev(k.value) for k in e.keywords if k.arg})
         return pe.ev(e, {k: v for k, v in env.items()})
 
     def bind(t, v):
